@@ -118,7 +118,12 @@ Print Assumptions C14_safe_api_owned.
 (*           (decoder side always; encoder side since efd3d7f)                             *)
 (* ===================================================================================== *)
 (* every type environment (nested, self-referential, mutually recursive types), any number of
-   goroutines, fresh or warm types, EVERY schedule: each call writes what it writes alone *)
+   goroutines, fresh or warm types, EVERY schedule: each call writes what it writes alone.
+   This is the code only if the critical section really has that shape; checks/C14.py inspects
+   it on both sides (encoder: repair flag encoder_locked; decoder: decoder_lock_structure: Lock
+   before registerNamedStructDecoder, still held at "decoder.fields =", decodeField under RLock).
+   A lock that is taken late or released early is the UNLOCKED machine of part II
+   (old_registry_refuted_enclosing: the reader finds the coder published and unassigned). *)
 Theorem C14_registry_linearizable :
   forall te vs sched st,
   wf_tenv te -> Forall (wf_val te) vs -> run te true (init vs) sched = Some st ->
